@@ -1174,11 +1174,448 @@ pub fn run(ctx: &mut Ctx) {
         }
     }
     ctx.obs("rounds_started", round + 1);
+    // ---- CRLs with extensions beyond AKI and CRL number
+    crl_extra_extensions(ctx, &pool);
+    // ---- the library's own in-memory signer, state carried between calls
+    softsigner_histories(ctx, &pool);
     // ---- bit flips
     let exhaustive = ctx.tier == Tier::Thorough && ctx.stage == Stage::Native;
     let flips = ctx.stage_budget((30_000, 0), if thorough { 12_000 } else { 2_000 }, 0, 1_200);
     run_flips(ctx, &pool, flips, exhaustive);
     ctx.obs("signatures_by_pool_signer", pool.signatures.get());
+}
+
+//------------ part 2b: other CRL extensions ------------------------------------
+
+/// The CRL of an otherwise valid message gets one more extension and is
+/// signed again by the peer key (the CMS signature does not cover the CRL).
+/// RFC 6492 / 8181 / 8183 do not profile the BPKI CRL (RFC 6487 section 5 is
+/// about RPKI CRLs), RFC 5280 lets a relying party ignore non-critical
+/// extensions it does not know, and every condition of the statement still
+/// holds for such a message. A critical unknown extension may be refused.
+fn crl_extra_extensions(ctx: &mut Ctx, pool: &PoolSigner) {
+    if ctx.shard != 0 || ctx.stage == Stage::Valgrind {
+        return;
+    }
+    let mut rng = ctx.rng("crl-extensions");
+    // (name, oid, critical, value)
+    let kinds: Vec<(&str, Vec<u64>, bool, Vec<u8>)> = vec![
+        ("freshest-crl", vec![2, 5, 29, 46], false, crate::der::seq(&[&crate::der::seq(&[&crate::der::tlv(0xA0, &crate::der::tlv(0xA0, &crate::der::tlv(0x86, b"http://crl.example/bpki-delta.crl")))])])),
+        ("authority-info-access", vec![1, 3, 6, 1, 5, 5, 7, 1, 1], false, crate::der::seq(&[&crate::der::seq(&[&crate::der::oid(&[1, 3, 6, 1, 5, 5, 7, 48, 2]), &crate::der::tlv(0x86, b"http://ca.example/bpki-ta.cer")])])),
+        ("issuer-alt-name", vec![2, 5, 29, 18], false, crate::der::seq(&[&crate::der::tlv(0x81, b"ca@example.net")])),
+        ("private-oid-null", vec![1, 3, 6, 1, 4, 1, 99999, 1], false, crate::der::null()),
+        ("private-oid-empty-sequence", vec![1, 3, 6, 1, 4, 1, 99999, 2], false, crate::der::seq(&[])),
+        ("private-oid-two-values", vec![1, 3, 6, 1, 4, 1, 99999, 3], false, crate::der::concat(&[&crate::der::uint(1), &crate::der::uint(2)])),
+        ("private-oid-critical", vec![1, 3, 6, 1, 4, 1, 99999, 4], true, crate::der::null()),
+    ];
+    for (ki, (name, oid, critical, value)) in kinds.iter().enumerate() {
+        for entry in ENTRIES {
+            let m = Msg::base(entry, &mut rng, ki as u64);
+            let b = build(pool, &m);
+            let key = pool.info(m.issuer);
+            // precondition: the unmodified message validates
+            let plain_ok = matches!(decode(entry, &b.bytes).and_then(|d| d.validate_at(&key, T0)), Ok(()));
+            let Some(root) = crate::der::parse(&b.bytes) else { continue };
+            let Some(crl) = root.path(&[1, 0, 4, 0]) else { continue };
+            let (Some(tbs), Some(alg)) = (crl.child(0), crl.child(1)) else { continue };
+            let Some(ext_wrapper_idx) = tbs.children.iter().position(|c| c.tag == crate::der::ctx(0)) else { continue };
+            let Some(exts) = tbs.children[ext_wrapper_idx].child(0) else { continue };
+            if !plain_ok {
+                continue;
+            }
+            // new extension list: at the front, in the middle or at the end
+            let new_ext = cms::extension(oid, *critical, value);
+            let mut list: Vec<Vec<u8>> = exts.children.iter().map(|c| c.whole(&b.bytes).to_vec()).collect();
+            let at = (ki + entry as usize) % (list.len() + 1);
+            list.insert(at, new_ext);
+            let mut tbs_parts: Vec<Vec<u8>> = tbs.children.iter().map(|c| c.whole(&b.bytes).to_vec()).collect();
+            tbs_parts[ext_wrapper_idx] = crate::der::tlv(crate::der::ctx(0), &crate::der::seq_of(&list));
+            let new_tbs = crate::der::seq_of(&tbs_parts);
+            let sig = pool.key(m.crl_signer).sign_raw(&new_tbs);
+            let new_crl = crate::der::seq(&[&new_tbs, alg.whole(&b.bytes), &crate::der::bitstring(0, &sig)]);
+            let bytes = crate::der::replace_node(&b.bytes, &root, &[1, 0, 4, 0], &new_crl);
+            let detail = || json!({"entry": entry.name(), "extension": name, "critical": critical, "position": at, "t": T0, "peer_key": m.issuer, "message": hex(&bytes)});
+            let r = ctx.no_panic("decode-validate-crl-extension", detail, || decode(entry, &bytes).map_err(|e| format!("decode: {e}")).and_then(|d| d.validate_at(&key, T0).map_err(|e| format!("validate: {e}"))));
+            ctx.eval();
+            let Some(r) = r else { continue };
+            ctx.sig(&format!("crl-extension {} {} critical={} position={}", entry.name(), name, critical, if at == 0 { "first" } else if at + 1 == list.len() { "last" } else { "middle" }));
+            ctx.obs(if r.is_ok() { "accepted" } else { "rejected" }, 1);
+            match (&r, critical) {
+                (Ok(()), false) => ctx.obs("crl-extension:non-critical:accepted", 1),
+                (Ok(()), true) => ctx.obs("crl-extension:critical-unknown:accepted", 1),
+                (Err(_), true) => ctx.obs("crl-extension:critical-unknown:rejected", 1),
+                (Err(e), false) => {
+                    ctx.obs("crl-extension:non-critical:rejected", 1);
+                    ctx.violation(
+                        &format!("C10:valid-rejected:crl-with-other-extension:{}", if e.starts_with("decode") { "decode" } else { "validate" }),
+                        &format!("a correctly signed message whose CRL (signed by the peer key, current, not listing the EE certificate) carries a non-critical extension other than AKI and CRL number is rejected: {e}"),
+                        detail(),
+                    );
+                }
+            }
+            ctx.sample("g:crl-with-other-extension", || json!({"entry": entry.name(), "extension": name, "critical": critical, "observed": format!("{:?}", r)}));
+        }
+    }
+}
+
+//------------ part 3: SoftSigner, state across calls ---------------------------
+
+/// What the harness knows about one key id of the signer under test.
+struct ModelKey {
+    id: rpki::crypto::softsigner::KeyId,
+    /// the public key this id stands for: for imported keys the public half
+    /// of what was imported (computed by the harness), for generated keys
+    /// what `get_key_info` said right after `create_key`
+    info: PublicKey,
+    alive: bool,
+    origin: &'static str,
+}
+
+/// PKCS#1 v1.5 / SHA-256 verification straight through aws-lc-rs.
+fn raw_verify(info: &PublicKey, data: &[u8], sig: &[u8]) -> bool {
+    aws_lc_rs::signature::UnparsedPublicKey::new(&aws_lc_rs::signature::RSA_PKCS1_2048_8192_SHA256, info.bits())
+        .verify(data, sig)
+        .is_ok()
+}
+
+/// RSAPrivateKey (PKCS#1) out of a PKCS#8 PrivateKeyInfo: the content of its OCTET STRING.
+fn pkcs1_of_pkcs8(p8: &[u8]) -> Option<Vec<u8>> {
+    let root = crate::der::parse(p8)?;
+    let key = root.child(2)?;
+    if key.tag != 0x04 {
+        return None;
+    }
+    Some(key.content(p8).to_vec())
+}
+
+/// One history of operations on one `SoftSigner`, checked after every step
+/// against the model: the public key of a live id never changes; signatures
+/// and protocol messages made under id k verify / validate under the key
+/// recorded for k and under no other key of the history. A destroyed id that
+/// still works with its *own* key is only recorded; one that signs with
+/// another key is a message validating under a key that did not issue it.
+fn softsigner_history(ctx: &mut Ctx, pool: &PoolSigner, rng: &mut Rng, h: u64, max_cms: u32) {
+    use aws_lc_rs::encoding::AsDer;
+    use rpki::crypto::softsigner::SoftSigner;
+    use rpki::crypto::{PublicKeyFormat, RpkiSignatureAlgorithm, Signer};
+
+    let signer = SoftSigner::new();
+    let mut model: Vec<ModelKey> = Vec::new();
+    let mut trace: Vec<String> = Vec::new();
+    let mut cms_left = max_cms;
+    let mut evals = 0u64;
+    // pool keys not yet imported into this signer
+    let mut fresh: Vec<usize> = (0..pool.len()).collect();
+    rng.shuffle(&mut fresh);
+    let mut generated = false;
+
+    // --- helpers as closures would fight the borrow checker; small macros instead
+    macro_rules! add_key {
+        ($how:expr) => {{
+            let how: u64 = $how;
+            let added: Option<(rpki::crypto::softsigner::KeyId, PublicKey, &'static str)> = match how {
+                0 if !generated => {
+                    generated = true;
+                    match ctx.no_panic("SoftSigner::create_key", || json!({"history": h, "ops": trace}), || signer.create_key(PublicKeyFormat::Rsa)) {
+                        Some(Ok(id)) => match signer.get_key_info(&id) {
+                            Ok(info) => Some((id, info, "create_key")),
+                            Err(_) => {
+                                ctx.violation("C10:softsigner:new-key-not-found", "get_key_info fails for the id create_key has just returned", json!({"history": h, "ops": trace}));
+                                None
+                            }
+                        },
+                        _ => None,
+                    }
+                }
+                _ => match fresh.pop() {
+                    None => None,
+                    Some(pi) => {
+                        let p8: Option<aws_lc_rs::encoding::Pkcs8V1Der> = pool.key(pi).pair.as_der().ok();
+                        match p8 {
+                            None => None,
+                            Some(p8) => {
+                                let via_der = how % 2 == 1;
+                                let r = if via_der {
+                                    pkcs1_of_pkcs8(p8.as_ref()).map(|p1| signer.key_from_der(&p1))
+                                } else {
+                                    Some(signer.key_from_pem(p8.as_ref()))
+                                };
+                                match r {
+                                    Some(Ok(id)) => Some((id, pool.info(pi), if via_der { "key_from_der" } else { "key_from_pem(pkcs8)" })),
+                                    _ => {
+                                        ctx.obs("softsigner_import_refused", 1);
+                                        None
+                                    }
+                                }
+                            }
+                        }
+                    }
+                },
+            };
+            if let Some((id, info, origin)) = added {
+                trace.push(format!("k{} = {}", model.len(), origin));
+                model.push(ModelKey { id, info, alive: true, origin });
+            }
+        }};
+    }
+
+    /// every id: key info and a signature
+    macro_rules! sweep {
+        () => {{
+            let data = rng.bytes(40);
+            for k in 0..model.len() {
+                let mk = &model[k];
+                let detail = || json!({"history": h, "ops": trace, "key": k, "origin": mk.origin, "destroyed": !mk.alive,
+                                       "recorded_key_id": mk.info.key_identifier().to_string()});
+                let info = ctx.no_panic("SoftSigner::get_key_info", detail, || signer.get_key_info(&mk.id));
+                let sig = ctx.no_panic("SoftSigner::sign", detail, || signer.sign(&mk.id, RpkiSignatureAlgorithm::default(), &data));
+                evals += 2;
+                let (Some(info), Some(sig)) = (info, sig) else { continue };
+                // which key of the history made the signature, judged by aws-lc-rs
+                let signed_by: Option<usize> = sig.as_ref().ok().and_then(|s| (0..model.len()).find(|j| raw_verify(&model[*j].info, &data, s.value())));
+                if mk.alive {
+                    match &info {
+                        Ok(i) if i.to_info_bytes() == mk.info.to_info_bytes() => ctx.obs("softsigner_key_info_stable", 1),
+                        Ok(i) => {
+                            let other = (0..model.len()).find(|j| model[*j].info.to_info_bytes() == i.to_info_bytes());
+                            ctx.violation(
+                                "C10:softsigner:key-info-changed",
+                                &format!("get_key_info for a live key id now returns another public key ({})", match other { Some(j) => format!("that of k{j}"), None => "an unknown one".into() }),
+                                detail(),
+                            );
+                        }
+                        Err(_) => ctx.violation("C10:softsigner:live-key-not-found", "get_key_info fails for a key id that was never destroyed", detail()),
+                    }
+                    match (&sig, signed_by) {
+                        (Ok(_), Some(j)) if j == k => ctx.obs("softsigner_signature_under_own_key", 1),
+                        (Ok(_), Some(j)) => ctx.violation(
+                            "C10:softsigner:signature-under-other-key",
+                            &format!("a signature requested under key id k{k} verifies under the public key of k{j}, not under its own"),
+                            detail(),
+                        ),
+                        (Ok(_), None) => ctx.violation("C10:softsigner:signature-under-no-key", "a signature made by the signer verifies under no key of the history", detail()),
+                        (Err(_), _) => ctx.violation("C10:softsigner:live-key-cannot-sign", "sign fails for a key id that was never destroyed", detail()),
+                    }
+                } else {
+                    match (&sig, signed_by) {
+                        (Err(_), _) => ctx.obs("softsigner_destroyed_id_refused", 1),
+                        (Ok(_), Some(j)) if j == k => ctx.obs("softsigner_destroyed_key_still_signs_with_own_key", 1),
+                        (Ok(_), other) => ctx.violation(
+                            "C10:softsigner:destroyed-id-signs-with-other-key",
+                            &format!("a destroyed key id still signs, with {}", match other { Some(j) => format!("the key of k{j}"), None => "an unknown key".into() }),
+                            detail(),
+                        ),
+                    }
+                    if let Ok(i) = &info {
+                        if i.to_info_bytes() != mk.info.to_info_bytes() {
+                            ctx.violation("C10:softsigner:destroyed-id-names-other-key", "get_key_info for a destroyed key id returns the public key of another key", detail());
+                        } else {
+                            ctx.obs("softsigner_destroyed_key_info_still_available", 1);
+                        }
+                    }
+                }
+            }
+        }};
+    }
+
+    /// a protocol message created under id k
+    macro_rules! cms_under {
+        ($k:expr) => {{
+            let k: usize = $k;
+            if cms_left > 0 && k < model.len() {
+                cms_left -= 1;
+                trace.push(format!("message under k{k}"));
+                let mk = &model[k];
+                let which = rng.below(3);
+                let nb = T0 - 300;
+                let na = T0 + 300;
+                let detail = || json!({"history": h, "ops": trace, "key": k, "origin": mk.origin, "destroyed": !mk.alive, "entry": which});
+                let made: Option<Result<(Vec<u8>, Entry), String>> = ctx.no_panic("create-with-softsigner", detail, || match which {
+                    0 => SignedMessage::create(Bytes::from(rng.bytes(50)), Validity::new(time(nb), time(na)), &mk.id, &signer)
+                        .map(|m| (m.to_captured().into_bytes().to_vec(), Entry::SignedStrict))
+                        .map_err(|e| e.to_string()),
+                    1 => {
+                        let s = SenderHandle::from_str("child").unwrap();
+                        let r = RecipientHandle::from_str("parent").unwrap();
+                        ProvisioningCms::create(provisioning::Message::list(s, r), &mk.id, &signer)
+                            .map(|m| (m.to_bytes().to_vec(), Entry::Provisioning))
+                            .map_err(|e| e.to_string())
+                    }
+                    _ => PublicationCms::create(publication::Message::list_query(), &mk.id, &signer)
+                        .map(|m| (m.to_bytes().to_vec(), Entry::Publication))
+                        .map_err(|e| e.to_string()),
+                });
+                evals += 1;
+                match made {
+                    None => {}
+                    Some(Err(e)) => {
+                        if mk.alive {
+                            ctx.violation(
+                                "C10:softsigner:create-fails-for-live-key",
+                                &format!("creating a protocol message under a key id that was never destroyed fails: {e}"),
+                                detail(),
+                            );
+                        } else {
+                            ctx.obs("softsigner_destroyed_id_refused", 1);
+                        }
+                    }
+                    Some(Ok((bytes, entry))) => {
+                        let mid = match cms::embedded_cert_validity(&bytes) {
+                            Some((a, b)) => a + (b - a) / 2,
+                            None => T0,
+                        };
+                        match decode(entry, &bytes) {
+                            Err(e) => ctx.violation(
+                                "C10:created-message:does-not-decode",
+                                &format!("a message created by the library (SoftSigner) is rejected by its own decoder ({}): {}", entry.name(), e),
+                                json!({"entry": entry.name(), "message": hex(&bytes)}),
+                            ),
+                            Ok(dec) => {
+                                let mut under: Vec<usize> = Vec::new();
+                                for j in 0..model.len() {
+                                    let r = ctx.no_panic("validate-created-softsigner", detail, || dec.validate_at(&model[j].info, mid));
+                                    evals += 1;
+                                    if let Some(Ok(())) = r {
+                                        under.push(j);
+                                    }
+                                }
+                                let d = || {
+                                    let mut d = detail();
+                                    d["validates_under"] = json!(under.iter().map(|j| format!("k{j}")).collect::<Vec<_>>());
+                                    d["t"] = json!(mid);
+                                    d["message"] = json!(hex(&bytes));
+                                    d
+                                };
+                                ctx.sig(&format!("softsigner message {} key-origin={} destroyed-before={} keys={}", entry.name(), mk.origin, model.iter().any(|m| !m.alive), model.len()));
+                                if under.iter().any(|j| *j != k) {
+                                    ctx.violation(
+                                        "C10:softsigner:message-validates-under-other-key",
+                                        &format!("a message created under key id k{k} validates under the public key of another key id"),
+                                        d(),
+                                    );
+                                } else if mk.alive && !under.contains(&k) {
+                                    ctx.violation(
+                                        "C10:softsigner:message-rejected-under-own-key",
+                                        &format!("a message created under key id k{k} does not validate under the public key recorded for that id, inside its validity"),
+                                        d(),
+                                    );
+                                } else if !mk.alive {
+                                    ctx.obs("softsigner_destroyed_key_still_signs_with_own_key", 1);
+                                } else {
+                                    ctx.obs("softsigner_message_under_own_key_only", 1);
+                                }
+                            }
+                        }
+                    }
+                }
+            }
+        }};
+    }
+
+    // --- the history
+    let n_initial = rng.range(3, 4) as usize;
+    let gen_at = rng.usize_below(n_initial + 1);
+    for i in 0..n_initial {
+        add_key!(if i == gen_at { 0 } else { 1 + rng.below(2) });
+    }
+    sweep!();
+    let steps = rng.range(5, 8);
+    let mut destroyed_any = false;
+    for step in 0..steps {
+        let alive: Vec<usize> = (0..model.len()).filter(|k| model[*k].alive).collect();
+        let op = if step == 1 && !destroyed_any { 0 } else { rng.below(7) };
+        match op {
+            0 | 1 if alive.len() >= 2 => {
+                // destroy: mostly not the newest key
+                let k = if rng.chance(3, 4) { alive[rng.usize_below(alive.len() - 1)] } else { *alive.last().unwrap() };
+                let id = model[k].id;
+                let r = ctx.no_panic("SoftSigner::destroy_key", || json!({"history": h, "ops": trace, "key": k}), || signer.destroy_key(&id));
+                trace.push(format!("destroy k{k}"));
+                evals += 1;
+                match r {
+                    Some(Ok(())) => {
+                        model[k].alive = false;
+                        destroyed_any = true;
+                        ctx.obs("softsigner_keys_destroyed", 1);
+                    }
+                    Some(Err(_)) => ctx.violation("C10:softsigner:live-key-not-found", "destroy_key fails for a key id that was never destroyed", json!({"history": h, "ops": trace, "key": k})),
+                    None => {}
+                }
+                sweep!();
+                // a message under a key created after the destroyed one, and one before
+                let later: Vec<usize> = (k + 1..model.len()).filter(|j| model[*j].alive).collect();
+                let earlier: Vec<usize> = (0..k).filter(|j| model[*j].alive).collect();
+                if !later.is_empty() {
+                    cms_under!(*rng.pick(&later));
+                }
+                if !earlier.is_empty() && rng.bool() {
+                    cms_under!(*rng.pick(&earlier));
+                }
+            }
+            2 => {
+                add_key!(if model.len() < 6 { rng.below(3) } else { 9 });
+                sweep!();
+            }
+            3 => {
+                // a message under a destroyed id (must fail or still be the old key's)
+                let dead: Vec<usize> = (0..model.len()).filter(|k| !model[*k].alive).collect();
+                if !dead.is_empty() {
+                    cms_under!(*rng.pick(&dead));
+                } else if !alive.is_empty() {
+                    cms_under!(*rng.pick(&alive));
+                }
+            }
+            4 => {
+                // one-off signatures must not disturb the stored keys
+                let data = rng.bytes(30);
+                let r = ctx.no_panic("SoftSigner::sign_one_off", || json!({"history": h, "ops": trace}), || signer.sign_one_off(RpkiSignatureAlgorithm::default(), &data));
+                trace.push("sign_one_off".into());
+                evals += 1;
+                if let Some(Ok((sig, key))) = r {
+                    if !raw_verify(&key, &data, sig.value()) {
+                        ctx.violation("C10:softsigner:one-off-signature-not-under-returned-key", "sign_one_off returns a public key under which its signature does not verify", json!({"history": h, "ops": trace}));
+                    } else if (0..model.len()).any(|j| model[j].info.to_info_bytes() == key.to_info_bytes()) {
+                        ctx.violation("C10:softsigner:one-off-key-is-a-stored-key", "sign_one_off used one of the stored identity keys", json!({"history": h, "ops": trace}));
+                    }
+                }
+                sweep!();
+            }
+            _ => {
+                if !alive.is_empty() {
+                    cms_under!(*rng.pick(&alive));
+                }
+            }
+        }
+    }
+    sweep!();
+    ctx.evals(evals);
+    ctx.obs("softsigner_histories", 1);
+    ctx.obs_max("softsigner_keys_in_one_history", model.len() as u64);
+    ctx.sig(&format!("softsigner history keys={} destroyed={} generated={}", model.len(), model.iter().filter(|m| !m.alive).count(), generated));
+    if h == 0 {
+        let ops = trace.clone();
+        ctx.sample("f:softsigner-history", || json!({"operations": ops, "observed": "every id kept its public key; signatures and messages validated under the recorded key of their id only"}));
+    }
+}
+
+fn softsigner_histories(ctx: &mut Ctx, pool: &PoolSigner) {
+    // RSA key generation (create_key, and the one-off EE key of every created
+    // message) costs 50-300 ms natively and seconds under valgrind
+    let (histories, max_cms) = match (ctx.stage, ctx.tier) {
+        (Stage::Native, Tier::Quick) => (1, 4),
+        (Stage::Native, Tier::Thorough) => (12, 5),
+        (Stage::Asan, Tier::Quick) => (1, 2),
+        (Stage::Asan, Tier::Thorough) => (2, 4),
+        _ => (0, 0),
+    };
+    if histories == 0 {
+        ctx.notes.push("C10: SoftSigner histories skipped in this stage (RSA key generation too slow here)".into());
+        return;
+    }
+    let mut rng = ctx.rng("softsigner");
+    for h in 0..histories {
+        softsigner_history(ctx, pool, &mut rng, h, max_cms);
+    }
 }
 
 /// Runs a message whose outcome is only recorded (unsorted attribute sets).
